@@ -93,8 +93,14 @@ Full == Mid \cup More
 (* quick: all sequences of <= 2 calls over Full, of 3 calls over Core;     *)
 (* thorough: all sequences of <= 2 calls over Full, of 3 calls over Mid;   *)
 (* sim: random sequences of MaxLen calls over Full (TLC -simulate).        *)
+(* hist: style histories - every sequence of MaxLen - 1 style changes over two colours per channel and two      *)
+(* widths, followed by one shape (grouping of elements under shared style depends on the history of changes)   *)
+StyleSet == { CS("color", "red"), CS("color", "blue"), CS("fill", "red"), CS("fill", "blue"), CS("stroke", "red"),
+              CS("stroke", "blue"), C("width", <<5>>), C("width", <<1>>) }
+HistShapes == { C("circle", <<10>>), C("rect", <<-10, 5>>), CS("text", "hi") }
 Third == IF Tier = "quick" THEN Core ELSE Mid
-Choices == IF Tier # "sim" /\ Len(cmds) = 2
+Choices == IF Tier = "hist" THEN (IF Len(cmds) < MaxLen - 1 THEN StyleSet ELSE HistShapes)
+           ELSE IF Tier # "sim" /\ Len(cmds) = 2
            THEN (IF \A i \in 1..2 : cmds[i] \in Third THEN Third ELSE {})
            ELSE Full
 
